@@ -28,9 +28,11 @@ pub struct ContinuityStore {
 }
 impl ContinuityStore {
     pub fn replay_events(&self, _id: &str) -> io::Result<Vec<Event>> { Ok(self.parent.clone()) }
-    pub fn create_continuity(&self, workspace: String, _id: Option<String>, title: Option<String>, _d: bool) -> Result<String, String> {
+    pub fn create_continuity_locked(&self, next_seq: &mut HashMap<String, u64>, workspace: String, _id: Option<String>, title: Option<String>, _d: bool) -> Result<String, String> {
         let id = "child".to_string();
+        if next_seq.contains_key(&id) { return Err("continuity already exists".into()); }
         self.event_log.append(&Event { id: "c0".into(), session_id: id.clone(), timestamp_ms: 0, seq: 0, kind: EventKind::ContinuityCreated { workspace, title } })?;
+        next_seq.insert(id.clone(), 1);
         Ok(id)
     }
     //@@ fn crates/ripd/src/continuities.rs ContinuityStore::branch
